@@ -338,6 +338,37 @@ def judgeLine (line : String) : String :=
       if firstAre (ms.flatMap fun (_, g) => [g, g]) segs && segs.length == 2 * ms.length then s!"OK {cls}"
       else s!"SPEC {cls} a-decoded-value-differs-when-read-after-later-Decode-calls got={" ".intercalate (rhs.take 10)}"
     | _ => s!"SPEC {cls} {" ".intercalate (rhs.take 4)}"
+  | "failthen" :: _ :: rest =>
+    -- a history with failed calls between valid ones: every answer (read after the last call) is the answer the
+    -- call would have given alone — OGC bytes / hex text / bytes written / the value back for a supported value,
+    -- an error for an unsupported one
+    let ms := membersOf rest 64
+    let cls := s!"failthen-{ms.length}"
+    if ms.length != (rest.filter (· == "|")).length then "BAD parse" else
+    match rhs with
+    | "late" :: res =>
+      let segs := segments (ms.length + 2) res
+      let want : List Tok := ms.map fun (bo, g) =>
+        match serialize bo g with
+        | some bs => ["x" ++ bytesToHex bs, "h" ++ String.ofList (hexEncode bs), "w" ++ bytesToHex bs, "ok"] ++ Proto.geomToks g
+        | none => ["x!", "h!", "w!", "none"]
+      let what (w s : Tok) : String :=
+        if w.head? == some "x!" then
+          (if s.head? != some "x!" || s.getD 1 "" != "h!" || s.getD 2 "" != "w!" then "unsupported-value-not-rejected" else "answer-differs")
+        else if s.head? != w.head? then "Encode-bytes-differ-from-OGC-layout"
+        else if s.getD 1 "" != w.getD 1 "" then "hex-text-differs"
+        else if s.getD 2 "" != w.getD 2 "" then "Write-bytes-differ-from-OGC-layout"
+        else "decoded-value-differs"
+      let rec firstBad (j : Nat) (failedBefore : Bool) : List Tok → List Tok → Option String
+        | w :: ws, s :: ss =>
+          if w == s then firstBad (j + 1) (failedBefore || w.head? == some "x!") ws ss
+          else some s!"call-{j}-{what w s}{if failedBefore then "-after-a-failed-call-in-the-same-process" else ""} got={" ".intercalate (s.take 3)}"
+        | [], [] => none
+        | _, _ => some s!"answers-missing-from-call-{j}"
+      match firstBad 0 false want segs with
+      | none => s!"OK {cls}"
+      | some why => s!"SPEC {cls} {why}"
+    | _ => s!"SPEC {cls} {" ".intercalate (rhs.take 4)}"
   | "cc" :: _ :: o :: gt =>
     match geomOfToks gt with
     | none => "BAD parse"
